@@ -2,10 +2,13 @@
    PROVEN about the model of the writer: every document is a single `roblox` element of version 4; referents are decimal
    numbers and therefore never the reserved word `null`; an empty reference is written `null`; writing a SharedString
    value puts its content into the dictionary that is emitted; an infinite/NaN component of a CFrame (and of the number
-   sequences) is written with Rust's Display text instead of the documented INF/NAN (refutation of the writer clause).
-   PROVEN about the model of the reader (computed instances): forward references and the dictionary are resolved; an
-   unknown Ref property that the default options claim to ignore is inserted by the rewrite pass (refutation of the
-   reader clause).  The spec side (Spec/XmlSpec.v, written from docs/xml.md) is EXECUTED on every generated document by
+   sequences) is written with Rust's Display text instead of the documented INF/NAN, and Content::Object panics the
+   writer (refutations of the writer clause in the current tree).
+   PROVEN about the model of the reader: forward references and the dictionary are resolved (computed instance); the step
+   repaired by /repo 8e3b6855, for every input: with IgnoreUnknown a property without a descriptor leaves the parse state
+   (both rewrite queues included) and the property map as they were, so neither pass can put it into the DOM; computed
+   through the whole reader for a Ref and for a SharedString the dictionary defines.  For the record, about
+   `xml_decode_pinned` (the code before that commit): both were inserted by the rewrite pass.  The spec side (Spec/XmlSpec.v, written from docs/xml.md) is EXECUTED on every generated document by
    modelrun and, together with expat + tools/xmlcheck.py on the real text, decides the writer direction per case; the
    reader direction is decided by the documents of the independent writer harness/src/xmlspecgen.rs.
    NOT proven: agreement of xspec_decode with xml_encode for arbitrary DOMs. *)
@@ -49,21 +52,52 @@ Theorem C05_reader_resolves_forward_refs_and_dictionary :
         mkInst 2 0 (B "Folder") (B "Folder") []].
 Proof. exact forward_ref_and_shared_string_resolved. Qed.
 
-(* ---- refutations (the code as pinned) *)
-Theorem C05_cframe_nonfinite_spelling_refuted :
-  forall (o : xoracle) (x : f32) (t : bytes),
-  xo_show32 o x = Some t -> xw_f32_display_tag o "X" x = Ok (w_elem (B "X") (w_string t)).
-Proof. exact cframe_component_uses_display. Qed.
+(* ---- a property the reader ignores stays ignored (repaired by /repo 8e3b6855) *)
+Theorem C05_ignored_property_leaves_no_trace :
+  forall (e : xenv) (class : bytes) (id : N) (ty pname : bytes) (st : dstate) (props : list (bytes * value))
+         (evs : list revent) (st' : dstate) (props' : list (bytes * value)) (rest : list revent),
+  bytes_eqb pname (B "Name") = false ->
+  find_desc_xml (xe_db e) (S_ class) (S_ pname) = Ok None ->
+  deserialize_property e DIgnoreUnknown class id ty pname st props evs = Ok ((st', props'), rest) ->
+  st' = st /\ props' = props.
+Proof. exact ignored_property_leaves_no_trace. Qed.
 
-Theorem C05_ignored_ref_property_resurrected_refuted :
+Theorem C05_ignored_ref_property_stays_ignored :
   xml_decode e0 DIgnoreUnknown
     [RStartDoc; RStart (B "roblox") [(B "version", B "4")];
      RStart (B "Item") [(B "class", B "Folder"); (B "referent", B "RBX1")]; RStart (B "Properties") [];
      RStart (B "Ref") [(B "name", B "Future")]; RChars (B "RBX1"); REnd (B "Ref");
      REnd (B "Properties"); REnd (B "Item"); REnd (B "roblox"); REndDoc]
-  = Ok [mkInst 1 0 (B "Folder") (B "Folder") [(B "Future", VRef 1)]].
-Proof. exact ignored_ref_property_resurrected. Qed.
+  = Ok [mkInst 1 0 (B "Folder") (B "Folder") []].
+Proof. exact ignored_ref_property_stays_ignored. Qed.
+
+Theorem C05_ignored_shared_string_property_stays_ignored :
+  xml_decode e0 DIgnoreUnknown
+    [RStartDoc; RStart (B "roblox") [(B "version", B "4")];
+     RStart (B "Item") [(B "class", B "Folder"); (B "referent", B "RBX1")]; RStart (B "Properties") [];
+     RStart (B "SharedString") [(B "name", B "Future")]; RChars (B "k1"); REnd (B "SharedString");
+     REnd (B "Properties"); REnd (B "Item");
+     RStart (B "SharedStrings") []; RStart (B "SharedString") [(B "md5", B "k1")]; RChars (B "eHl6"); REnd (B "SharedString"); REnd (B "SharedStrings");
+     REnd (B "roblox"); REndDoc]
+  = Ok [mkInst 1 0 (B "Folder") (B "Folder") []].
+Proof. exact ignored_shared_string_property_stays_ignored. Qed.
+
+(* ---- refutations (current tree) *)
+Theorem C05_cframe_nonfinite_spelling_refuted :
+  forall (o : xoracle) (x : f32) (t : bytes),
+  xo_show32 o x = Some t -> xw_f32_display_tag o "X" x = Ok (w_elem (B "X") (w_string t)).
+Proof. exact cframe_component_uses_display. Qed.
 
 Theorem C05_writer_panics_on_content_object_refuted :
   forall (o : xoracle) (r : N), write_xml o (VContent (CObject r)) = Some (B "Content", Panic).
 Proof. exact content_object_panics. Qed.
+
+(* ---- for the record: the code before 8e3b6855 (`xml_decode_pinned` of Model/XmlFile.v) *)
+Theorem C05_ignored_ref_property_resurrected_pinned :
+  xml_decode_pinned e0 DIgnoreUnknown
+    [RStartDoc; RStart (B "roblox") [(B "version", B "4")];
+     RStart (B "Item") [(B "class", B "Folder"); (B "referent", B "RBX1")]; RStart (B "Properties") [];
+     RStart (B "Ref") [(B "name", B "Future")]; RChars (B "RBX1"); REnd (B "Ref");
+     REnd (B "Properties"); REnd (B "Item"); REnd (B "roblox"); REndDoc]
+  = Ok [mkInst 1 0 (B "Folder") (B "Folder") [(B "Future", VRef 1)]].
+Proof. exact ignored_ref_property_resurrected_pinned. Qed.
